@@ -873,7 +873,12 @@ func (rr *runRec) execute() {
 	defer cancel()
 	setHookCallback(rr.hook)
 	defer setHookCallback(nil)
-	rr.p = mpb.NewWithContext(ctx, rr.containerOptions()...)
+	if sc.End == "natural" && sc.Trig == nil && common.H(sc.Seed, "nilctx")%4 == 0 {
+		// nobody cancels in this scenario: a nil context stands for the background context
+		rr.p = mpb.NewWithContext(nil, rr.containerOptions()...) //nolint:staticcheck
+	} else {
+		rr.p = mpb.NewWithContext(ctx, rr.containerOptions()...)
+	}
 
 	for i, b := range sc.Bars {
 		if b.AddBy < 0 {
